@@ -3,6 +3,7 @@ package harness
 import (
 	"context"
 	"fmt"
+	"strings"
 	"sync"
 	"testing"
 	"testing/synctest"
@@ -60,11 +61,11 @@ type gatedRR struct {
 	ev chan controller.ReconcileEvent
 }
 
-func (g *gatedRR) EventCh() <-chan controller.ReconcileEvent      { return g.ev }
-func (g *gatedRR) QueueReconcile()                                {}
-func (g *gatedRR) ResetRestartBackoff()                           {}
-func (g *gatedRR) UpdateInputs(ins []controller.Input) error      { return g.rt.UpdateInputs(ins) }
-func (g *gatedRR) StartTrackingOutputs()                          { g.rt.StartTrackingOutputs() }
+func (g *gatedRR) EventCh() <-chan controller.ReconcileEvent { return g.ev }
+func (g *gatedRR) QueueReconcile()                           {}
+func (g *gatedRR) ResetRestartBackoff()                      {}
+func (g *gatedRR) UpdateInputs(ins []controller.Input) error { return g.rt.UpdateInputs(ins) }
+func (g *gatedRR) StartTrackingOutputs()                     { g.rt.StartTrackingOutputs() }
 func (g *gatedRR) CleanupOutputs(ctx context.Context, k ...resource.Kind) error {
 	return g.rt.CleanupOutputs(ctx, k...)
 }
@@ -152,6 +153,7 @@ func runGatedCleanup(t *testing.T, c ccCase) (coq string, flags map[string]bool,
 		var steps []string
 
 		inPass := true // the first pass has started (model: C0)
+		createdSinceList := false
 		lastOK := true
 
 		now := func() string { return coqZ(int64(time.Since(t0))) }
@@ -183,6 +185,25 @@ func runGatedCleanup(t *testing.T, c ccCase) (coq string, flags map[string]bool,
 				g.mu.Lock()
 				g.pending, g.release = "", nil
 				g.mu.Unlock()
+
+				switch kind {
+				case "GList":
+					createdSinceList = false
+				case "GRemFin":
+					// monitor (third clause of C07): the release is issued only while no dependent exists - unless a
+					// dependent was created after the handler looked (excluded by the property's assumption)
+					if in := get("T", "a"); in != nil && in.Metadata().Phase() == resource.PhaseTearingDown && !createdSinceList {
+						for _, k := range kinds {
+							for _, id := range []string{"d1", "d2"} {
+								if d := get(k, id); d != nil {
+									if v, _ := d.Metadata().Labels().Get("in"); v == "a" {
+										problem = fmt.Sprintf("released-before-handler: RemoveFinalizer on the torn-down input is issued while dependent %s/%s (phase %s, finalizers %v) still exists", k, id, d.Metadata().Phase(), *d.Metadata().Finalizers())
+									}
+								}
+							}
+						}
+					}
+				}
 
 				flags["call:"+kind] = true
 				steps = append(steps, fmt.Sprintf("(CStep %s, %s)", now(), kind))
@@ -275,6 +296,7 @@ func runGatedCleanup(t *testing.T, c ccCase) (coq string, flags map[string]bool,
 					st.Create(ctx, d) //nolint:errcheck
 
 					flags["dependent_created"] = true
+					createdSinceList = true
 
 					continue
 				case "dep.destroy":
@@ -288,6 +310,16 @@ func runGatedCleanup(t *testing.T, c ccCase) (coq string, flags map[string]bool,
 				case "dep.relabel":
 					if r = get(ch.Fin, ch.Owner); r != nil {
 						r.Metadata().Labels().Set("in", "zz")
+					}
+				case "dep.teardown":
+					// a dependent that is on its way out (marked tearing down, possibly without finalizers) is still there
+					if r = get(ch.Fin, ch.Owner); r != nil {
+						r.Metadata().SetPhase(resource.PhaseTearingDown)
+						flags["dependent_torn_down_not_destroyed"] = true
+					}
+				case "dep.addfin":
+					if r = get(ch.Fin, ch.Owner); r != nil {
+						r.Metadata().Finalizers().Add(extFin)
 					}
 				}
 
@@ -359,7 +391,7 @@ func genGatedCleanup(r *rng) ccCase {
 	}
 
 	for range 8 + r.intn(30) {
-		switch x := r.intn(20); {
+		switch x := r.intn(24); {
 		case x < 8:
 			c.Sched = append(c.Sched, qgChoice{Kind: "step"})
 		case x < 11:
@@ -375,11 +407,42 @@ func genGatedCleanup(r *rng) ccCase {
 		case x < 19:
 			c.Sched = append(c.Sched, qgChoice{Kind: "env", Env: "dep.destroy", Fin: pick(r, depKinds), Owner: pick(r, []string{"d1", "d2"})})
 		default:
-			c.Sched = append(c.Sched, qgChoice{Kind: "env", Env: "dep.relabel", Fin: pick(r, depKinds), Owner: pick(r, []string{"d1", "d2"})})
+			c.Sched = append(c.Sched, qgChoice{Kind: "env", Env: pick(r, []string{"dep.relabel", "dep.teardown", "dep.teardown", "dep.addfin"}), Fin: pick(r, depKinds), Owner: pick(r, []string{"d1", "d2"})})
 		}
 	}
 
 	return c
+}
+
+// cleanupCorpus: an input with one dependent is torn down and reconciled, the dependent goes away, reconciled again -
+// with one operation on the dependent (teardown, finalizer, relabel, destroy, a second dependent) at every position.
+func cleanupCorpus() []ccCase {
+	step := qgChoice{Kind: "step"}
+	base := []qgChoice{
+		{Kind: "env", Env: "in.create"}, step, step, {Kind: "env", Env: "dep.create", Fin: "O", Owner: "d1"}, {Kind: "restart"},
+		{Kind: "env", Env: "in.teardown"}, step, step, step, {Kind: "restart"}, step, step, step,
+		{Kind: "env", Env: "dep.destroy", Fin: "O", Owner: "d1"}, {Kind: "restart"}, step, step, step,
+	}
+	envs := []qgChoice{
+		{Kind: "env", Env: "dep.teardown", Fin: "O", Owner: "d1"}, {Kind: "env", Env: "dep.addfin", Fin: "O", Owner: "d1"},
+		{Kind: "env", Env: "dep.relabel", Fin: "O", Owner: "d1"}, {Kind: "env", Env: "dep.destroy", Fin: "O", Owner: "d1"},
+		{Kind: "env", Env: "dep.create", Fin: "O", Owner: "d2"},
+	}
+
+	var out []ccCase
+
+	for _, combine := range []bool{false, true} {
+		for pos := 4; pos <= len(base); pos++ {
+			for _, e := range envs {
+				sched := append([]qgChoice(nil), base[:pos]...)
+				sched = append(sched, e)
+				sched = append(sched, base[pos:]...)
+				out = append(out, ccCase{Combine: combine, Sched: sched})
+			}
+		}
+	}
+
+	return out
 }
 
 func gatedCleanupPhase(t *testing.T) func(rep *Report, dir string) {
@@ -389,14 +452,21 @@ func gatedCleanupPhase(t *testing.T) func(rep *Report, dir string) {
 
 		var jl []any
 
+		todo := cleanupCorpus()
+
 		for range tier(300, 6000) {
-			c := genGatedCleanup(r)
+			todo = append(todo, genGatedCleanup(r))
+		}
+
+		for _, c := range todo {
 
 			coq, flags, problem := runGatedCleanup(t, c)
 			if problem != "" {
-				rep.violateKey(len(jl), "gated-cleanup:"+problem, problem, map[string]any{"cleanup": c})
+				rep.violateKey(len(jl), "gated-cleanup:"+strings.SplitN(problem, ":", 2)[0], problem, map[string]any{"cleanup": c})
 
-				continue
+				if coq == "" {
+					continue
+				}
 			}
 
 			f.add(coq)
